@@ -591,6 +591,13 @@ class App(falcon.app.App):
 
             req_succeeded = False
 
+            # NOTE: render what the error handler put on the response, so
+            #   that its body is not lost; if that fails too, send no body.
+            try:
+                data = await resp.render_body()
+            except Exception:
+                data = b''
+
         resp_status: int = resp.status_code
         default_media_type: Optional[str] = self.resp_options.default_media_type
 
